@@ -1035,9 +1035,21 @@ func (r *Run) deepIter(name string, mk func() ecs.Query, seq []ecs.Entity) *wx.F
 			}
 		}
 		if s := r.slotOf(e); s >= 0 {
-			if rel := r.m.relOf(r.m.Slots[s].Has); rel >= 0 {
+			rel := r.m.relOf(r.m.Slots[s].Has)
+			if rel >= 0 {
 				if t := q.Relation(r.ids[rel]); t != w.Relations().Get(e, r.ids[rel]) {
 					return bad("relation", fmt.Sprintf("Relation() at %v = %v differs from the world's", e, t))
+				}
+			}
+			// Query.Relation for a component the entity lacks, or that is not its relation component, is documented to panic
+			for ci := range r.cfg.Comps {
+				if ci == rel {
+					continue
+				}
+				id := r.ids[ci]
+				if !panics(func() { q.Relation(id) }) {
+					q.Close()
+					return r.fail("C10", "nopanic:Query.Relation", fmt.Sprintf("query %s: Relation(%s) at %v (which has no such relation component) did not panic", name, r.cfg.Comps[ci], e))
 				}
 			}
 		}
